@@ -45,7 +45,7 @@ def check_A(S, p):
     for i in range(p["a"]):
         labels = [p["name"], "A", i]
         rng = rng_for(seed, "c10", *labels)
-        cs = G.random_callset(rng, nsamples=rng.choice([1, 2, 3, 5, 8, 12]), nrecords=rng.choice([0, 1, 2, 5, 12, 40, 100]),
+        cs = G.random_callset(rng, nsamples=rng.choice([1, 2, 3, 5, 8, 12]), nrecords=rng.choice([0, 1, 2, 5, 12, 40, 100, 100, 1023, 1024, 1025, 2048]) if i else [1024, 2048, 512, 4096][p["i"] % 4],
                               p_missing=rng.choice([0.0, 0.05, 0.2, 0.5]), p_multi=rng.choice([0.0, 0.1]))
         smap = None if rng.random() < 0.2 else G.random_sample_map(rng, cs.samples)
         eff_map = smap if smap is not None else [(s, None) for s in cs.samples]
